@@ -1,5 +1,61 @@
+import os
+import re
+
 import engine_check
+import vlib
+
+
+def contrib_stage(ctx):
+    """contrib side of C08: the protocol as observed through the library's own facilities (state_control, coverage,
+    remove_first_state / shuffle_states) over plain and must_if controls, vetoing actions, must<> / must_if exceptions
+    and a parse started from a destructor during stack unwinding.  harness/c08_contrib.cpp checks the Dyck structure,
+    truthfulness, start = success + failure + unwind for every rule and branch, coverage counters = observer log."""
+    exe = vlib.build_cpp([os.path.join(vlib.VERIF, "harness", "c08_contrib.cpp")], "c08_contrib", flags=["-O1"], compiler="g++")
+    rc, out = vlib.sh([exe, "4" if ctx.tier == "quick" else "6"], timeout=1800)
+    done = [l for l in out.split("\n") if l.startswith("DONE ")]
+    if rc != 0 or not done:
+        ctx.violation("c08 contrib harness crashed (rc=%d)" % rc, "the contrib observer run ended abnormally: " + out[-600:], {"stage": "contrib", "output": out[-3000:]})
+        return
+    n_cases, n_events, n_viol = [int(x) for x in done[0].split()[1:4]]
+    seen = set()
+    for l in out.split("\n"):
+        if not l.startswith("VIOL "):
+            continue
+        t = l.split(" ", 5)
+        kind, g, cfg, hx = t[1], t[2], t[3], t[4]
+        detail = t[5] if len(t) > 5 else ""
+        sig = "contrib %s %s: %s" % (kind, g, re.sub(r"\d+", "#", detail.split(":")[0])[:120])
+        if sig in seen:
+            continue
+        seen.add(sig)
+        ctx.violation(sig, "%s (%s, %s, input %s): %s" % (kind, g, cfg, hx, detail[:600]),
+                      {"stage": "contrib", "grammar": g, "cfg": cfg, "input_hex": hx, "detail": detail[:2000],
+                       "how": "harness/c08_contrib.cpp (state_control observer + coverage on the real library)"})
+    ctx.cover(evaluations=n_cases, distinct=n_cases // 4, validated=0, contrib_cases=n_cases, contrib_hook_events=n_events, contrib_violations=n_viol,
+              rule="contrib stage: 7 grammars x 4 configurations (plain / vetoing / must_if control) x all inputs over {a,b,c} up to length %d through state_control + coverage, each also from a destructor during unwinding" % (4 if ctx.tier == "quick" else 6))
+
+
 def run(ctx):
     engine_check.run(ctx, "C08")
+    contrib_stage(ctx)
+
+
 def replay(j):
+    if (j.get("replay") or {}).get("stage") == "contrib":
+        class _C:
+            def __init__(self):
+                self.v = []
+                self.tier = "quick"
+
+            def violation(self, sig, what, rp):
+                self.v.append(what)
+
+            def cover(self, **k):
+                pass
+        c = _C()
+        contrib_stage(c)
+        for w in c.v[:10]:
+            print("REPLAY:", w[:400])
+        print("REPLAY: VIOLATION reproduced" if c.v else "REPLAY: not reproduced on the current tree")
+        return 1 if c.v else 0
     return engine_check.replay(j)
